@@ -249,32 +249,21 @@ def index_ok(repo: Repo, world: World, f: Func, g: t.Any, n: ast.Subscript, gram
     # dict literal indexed by a closed set of keys
     if isinstance(base, ast.Dict):
         return dict_key_ok(repo, world, f, n)
-    nid = None
-    for cn in g.nodes:
-        if cn.ast is not None and cn.kind in ("stmt", "cond") and not isinstance(cn.ast, (ast.FunctionDef, ast.AsyncFunctionDef)) and any(x is n for x in ast.walk(cn.ast)):
-            nid = cn.id
-    guards = g.guards_of(nid) if nid is not None else []
+    from .util import atoms_at, prov_text
+
     b = unparse(base)
+    bp = prov_text(f, base, n)
     okc, idx = repo.try_fold(n.slice, f.mod)
-    # x[0] after `len(x) != 1 -> raise` / `len(x) == 1`
-    for c, pol in guards:
-        if isinstance(c, ast.Compare) and len(c.ops) == 1 and unparse(c.left) == f"len({b})":
-            okk, k = repo.try_fold(c.comparators[0], f.mod)
-            if okk and isinstance(k, int) and okc and isinstance(idx, int):
-                if (isinstance(c.ops[0], ast.NotEq) and pol is False) or (isinstance(c.ops[0], ast.Eq) and pol):
-                    if 0 <= idx < k:
-                        return True, f"dominated by len({b}) == {k}"
-    # short-circuit: `len(x) != 1 or ... x[0] ...` inside the same boolean expression
-    for c, pol in guards:
-        pass
-    enclosing = _enclosing_boolop(f, n)
-    if enclosing is not None:
-        op, earlier = enclosing
-        for e in earlier:
-            if isinstance(e, ast.Compare) and unparse(e.left) == f"len({b})" and isinstance(e.ops[0], ast.NotEq) and isinstance(op, ast.Or):
-                okk, k = repo.try_fold(e.comparators[0], f.mod)
-                if okk and okc and isinstance(idx, int) and isinstance(k, int) and 0 <= idx < k:
-                    return True, f"evaluated only when len({b}) == {k} (short-circuit or)"
+    # x[i] where len(x) == k is known (dominating guard, guard through a flag variable, or short-circuit operand)
+    for c, pol in atoms_at(f, n):
+        if isinstance(c, ast.Compare) and len(c.ops) == 1:
+            for lhs, rhs, op in ((c.left, c.comparators[0], c.ops[0]), (c.comparators[0], c.left, c.ops[0])):
+                if unparse(lhs) in (f"len({b})", f"len({bp})"):
+                    okk, k = repo.try_fold(rhs, f.mod)
+                    if okk and isinstance(k, int) and okc and isinstance(idx, int):
+                        if (isinstance(op, ast.NotEq) and pol is False) or (isinstance(op, ast.Eq) and pol):
+                            if 0 <= idx < k:
+                                return True, f"evaluated only when len({b}) == {k}"
     # components of the SID string after the grammar matched
     if f.qual == "_security_descriptor.sid_to_bytes" and isinstance(base, ast.Name):
         res = world.analyse(f)
